@@ -6,6 +6,7 @@ import (
 	"go/token"
 	"go/types"
 	"os"
+	"strconv"
 
 	"golang.org/x/tools/go/ssa"
 )
@@ -274,11 +275,20 @@ var pureCallees = map[string]bool{
 	"strings.HasPrefix":                  true,
 }
 
-func Canon(v ssa.Value) string {
+func Canon(v ssa.Value) string { return canon(v, false) }
+
+// CanonDeep is Canon after looking through once-assigned captured variables (ResolveOnce), so that a value
+// named in a closure and the same value named in the enclosing function get the same form.
+func CanonDeep(v ssa.Value) string { return canon(v, true) }
+
+func canon(v ssa.Value, deep bool) string {
 	if v == nil {
 		return "<nil>"
 	}
 	v = Resolve1(v)
+	if deep {
+		v = ResolveOnce(v)
+	}
 	switch x := v.(type) {
 	case *ssa.Parameter:
 		return "param:" + x.Name()
@@ -294,7 +304,7 @@ func Canon(v ssa.Value) string {
 			s := name + "("
 			args := x.Common().Args
 			if x.Common().IsInvoke() {
-				s += Canon(x.Common().Value) + ";"
+				s += canon(x.Common().Value, deep) + ";"
 			}
 			for i, a := range args {
 				if i > 0 {
@@ -303,11 +313,11 @@ func Canon(v ssa.Value) string {
 				if elems, ok := VarargElems(a); ok {
 					s += "["
 					for _, e := range elems {
-						s += Canon(e) + ","
+						s += canon(e, deep) + ","
 					}
 					s += "]"
 				} else {
-					s += Canon(a)
+					s += canon(a, deep)
 				}
 			}
 			return s + ")"
@@ -315,7 +325,7 @@ func Canon(v ssa.Value) string {
 	case *ssa.UnOp:
 		if x.Op == token.MUL {
 			if t, f, base, ok := FieldName(x.X); ok {
-				return t + "." + f + "{" + Canon(base) + "}"
+				return t + "." + f + "{" + canon(base, deep) + "}"
 			}
 			if g, ok := x.X.(*ssa.Global); ok {
 				return "global:" + shortName(g.String())
@@ -328,30 +338,30 @@ func Canon(v ssa.Value) string {
 				return "*cell:" + al.Parent().Name() + "." + al.Name()
 			}
 			if ia, ok := x.X.(*ssa.IndexAddr); ok {
-				return Canon(ia.X) + "[" + Canon(ia.Index) + "]"
+				return canon(ia.X, deep) + "[" + canon(ia.Index, deep) + "]"
 			}
 		}
 		if x.Op == token.NOT {
-			return "!" + Canon(x.X)
+			return "!" + canon(x.X, deep)
 		}
 	case *ssa.Field:
 		if t, f, base, ok := FieldName(x); ok {
-			return t + "." + f + "{" + Canon(base) + "}"
+			return t + "." + f + "{" + canon(base, deep) + "}"
 		}
 	case *ssa.FieldAddr:
 		if t, f, base, ok := FieldName(x); ok {
-			return "&" + t + "." + f + "{" + Canon(base) + "}"
+			return "&" + t + "." + f + "{" + canon(base, deep) + "}"
 		}
 	case *ssa.BinOp:
-		return "(" + Canon(x.X) + x.Op.String() + Canon(x.Y) + ")"
+		return "(" + canon(x.X, deep) + x.Op.String() + canon(x.Y, deep) + ")"
 	case *ssa.IndexAddr:
-		return "&" + Canon(x.X) + "[" + Canon(x.Index) + "]"
+		return "&" + canon(x.X, deep) + "[" + canon(x.Index, deep) + "]"
 	case *ssa.Lookup:
-		return Canon(x.X) + "[" + Canon(x.Index) + "]"
+		return canon(x.X, deep) + "[" + canon(x.Index, deep) + "]"
 	case *ssa.Extract:
-		return Canon(x.Tuple) + "#" + fmt.Sprint(x.Index)
+		return canon(x.Tuple, deep) + "#" + fmt.Sprint(x.Index)
 	case *ssa.Index:
-		return Canon(x.X) + "[" + Canon(x.Index) + "]"
+		return canon(x.X, deep) + "[" + canon(x.Index, deep) + "]"
 	}
 	fn := "?"
 	if in, ok := v.(ssa.Instruction); ok && in.Parent() != nil {
@@ -360,7 +370,108 @@ func Canon(v ssa.Value) string {
 	return "%" + fn + "." + v.Name()
 }
 
-func SameCanon(a, b ssa.Value) bool { return Canon(a) == Canon(b) }
+func SameCanon(a, b ssa.Value) bool {
+	return Canon(a) == Canon(b) || CanonDeep(a) == CanonDeep(b)
+}
+
+// onceStored: the local cell has exactly one store in its function and none through any closure capturing it;
+// returns that store.
+func onceStored(al *ssa.Alloc) *ssa.Store {
+	var st *ssa.Store
+	n := 0
+	var visit func(addr ssa.Value) bool
+	visit = func(addr ssa.Value) bool {
+		refs := addr.Referrers()
+		if refs == nil {
+			return false
+		}
+		for _, ref := range *refs {
+			switch x := ref.(type) {
+			case *ssa.Store:
+				if x.Addr == addr {
+					n++
+					st = x
+				} else {
+					return false // address stored somewhere
+				}
+			case *ssa.UnOp:
+				if x.Op != token.MUL {
+					return false
+				}
+			case *ssa.MakeClosure:
+				fn := x.Fn.(*ssa.Function)
+				for i, b := range x.Bindings {
+					if b == addr {
+						if !visit(fn.FreeVars[i]) {
+							return false
+						}
+					}
+				}
+			case *ssa.DebugRef:
+			default:
+				return false // address taken / passed on: writes cannot be enumerated
+			}
+		}
+		return true
+	}
+	if !visit(al) || n != 1 || st.Parent() != al.Parent() {
+		return nil
+	}
+	return st
+}
+
+// ResolveOnce looks through a load of a once-assigned captured variable (from the closure or from the enclosing
+// function, after the assignment) to the value assigned.
+func ResolveOnce(v ssa.Value) ssa.Value {
+	for depth := 0; depth < 6; depth++ {
+		v = Strip(v)
+		u, ok := v.(*ssa.UnOp)
+		if !ok || u.Op != token.MUL {
+			return v
+		}
+		var al *ssa.Alloc
+		addr := u.X
+		viaClosure := false
+		for i := 0; i < 4; i++ {
+			if fv, ok := addr.(*ssa.FreeVar); ok {
+				addr = freeVarBinding(fv)
+				viaClosure = true
+				continue
+			}
+			break
+		}
+		al, _ = addr.(*ssa.Alloc)
+		if al == nil {
+			return v
+		}
+		st := onceStored(al)
+		if st == nil {
+			return v
+		}
+		if viaClosure {
+			// every closure capturing the cell must be created after the assignment
+			okOrder := true
+			for _, ref := range *al.Referrers() {
+				if mc, ok := ref.(*ssa.MakeClosure); ok {
+					if !(st.Block() == mc.Block() && Before(st, mc) || st.Block() != mc.Block() && st.Block().Dominates(mc.Block())) {
+						okOrder = false
+					}
+				}
+			}
+			if !okOrder {
+				return v
+			}
+		} else if !(st.Block() == u.Block() && Before(st, u) || st.Block() != u.Block() && st.Block().Dominates(u.Block())) {
+			return v
+		}
+		nv, unk := Resolve(st.Val)
+		if unk || len(nv) != 1 {
+			return Strip(st.Val)
+		}
+		v = nv[0]
+	}
+	return v
+}
 
 // CanonVP: v has the given canonical form.
 func CanonVP(c string) VP { return func(v ssa.Value) bool { return Canon(v) == c } }
@@ -525,6 +636,7 @@ type HMACInfo struct {
 	HashCtor string      // e.g. "crypto/sha1.New"
 	Key      ssa.Value   // argument of []byte(key) conversion, stripped
 	Writes   []ssa.Value // values written, in order (string or []byte, stripped of conversions)
+	Parts    []string    // the message as a canonical byte sequence: every write flattened (a+b, strings.Join, Sprintf %s), adjacent constants merged
 	NewCall  *ssa.Call
 }
 
@@ -609,7 +721,130 @@ func HexHMACOf(v ssa.Value) (*HMACInfo, bool) {
 		}
 		info.Writes = append(info.Writes, u.val)
 	}
+	var seq []SeqPart
+	for _, wv := range info.Writes {
+		seq = append(seq, ByteSeq(wv)...)
+	}
+	info.Parts = SeqCanon(seq)
 	return info, true
+}
+
+// RegexLiteralOf: the pattern of the *regexp.Regexp value re — compiled in place (regexp.MustCompile("lit"))
+// or a package-level variable initialised that way.
+func (w *World) RegexLiteralOf(re ssa.Value) (string, bool) {
+	re = ResolveOnce(Resolve1(re))
+	if mc, ok := re.(*ssa.Call); ok && CalleeName(mc.Common()) == "regexp.MustCompile" {
+		return ConstString(mc.Common().Args[0])
+	}
+	if g, ok := LoadedGlobal(re); ok {
+		return w.GlobalRegexLiteral(g)
+	}
+	return "", false
+}
+
+// SeqPart is one element of a byte/string sequence: a constant or an opaque value.
+type SeqPart struct {
+	Const *string
+	Val   ssa.Value
+}
+
+// ByteSeq flattens the ways of building one string out of pieces — a + b, strings.Join([]string{…}, sep),
+// fmt.Sprintf with only %s/%v verbs on string operands — into the sequence of pieces.
+func ByteSeq(v ssa.Value) []SeqPart {
+	v = ResolveOnce(Resolve1(v)) // also through `prefix := "+R" + id + "-"` hoisted out of a closure
+	if s, ok := ConstString(v); ok {
+		return []SeqPart{{Const: &s}}
+	}
+	switch x := v.(type) {
+	case *ssa.BinOp:
+		if x.Op == token.ADD {
+			return append(ByteSeq(x.X), ByteSeq(x.Y)...)
+		}
+	case *ssa.Call:
+		switch CalleeName(x.Common()) {
+		case "strings.Join":
+			elems, ok := VarargElems(x.Call.Args[0])
+			sep, okS := ConstString(x.Call.Args[1])
+			if ok && okS {
+				var out []SeqPart
+				for i, e := range elems {
+					if e == nil {
+						return []SeqPart{{Val: v}}
+					}
+					if i > 0 {
+						sc := sep
+						out = append(out, SeqPart{Const: &sc})
+					}
+					out = append(out, ByteSeq(e)...)
+				}
+				return out
+			}
+		case "fmt.Sprintf":
+			f, args, ok := SprintfCall(x)
+			if ok {
+				var out []SeqPart
+				ai := 0
+				lit := ""
+				good := true
+				for i := 0; i < len(f) && good; i++ {
+					if f[i] != '%' {
+						lit += string(f[i])
+						continue
+					}
+					if i+1 < len(f) && f[i+1] == '%' {
+						lit += "%"
+						i++
+						continue
+					}
+					if i+1 < len(f) && (f[i+1] == 's' || f[i+1] == 'v') && ai < len(args) && args[ai] != nil {
+						a := Strip(args[ai])
+						if mi, isMI := args[ai].(*ssa.MakeInterface); isMI {
+							a = mi.X
+						}
+						if b, isB := a.Type().Underlying().(*types.Basic); isB && b.Info()&types.IsString != 0 {
+							l := lit
+							out = append(out, SeqPart{Const: &l})
+							lit = ""
+							out = append(out, ByteSeq(a)...)
+							ai++
+							i++
+							continue
+						}
+					}
+					good = false
+				}
+				if good && ai == len(args) {
+					out = append(out, SeqPart{Const: &lit})
+					return out
+				}
+			}
+		}
+	}
+	return []SeqPart{{Val: v}}
+}
+
+// SeqCanon renders a sequence canonically: adjacent constants merged, empty constants dropped, values by Canon.
+func SeqCanon(seq []SeqPart) []string {
+	var out []string
+	pending := ""
+	has := false
+	flush := func() {
+		if has && pending != "" {
+			out = append(out, strconv.Quote(pending))
+		}
+		pending, has = "", false
+	}
+	for _, p := range seq {
+		if p.Const != nil {
+			pending += *p.Const
+			has = true
+			continue
+		}
+		flush()
+		out = append(out, Canon(p.Val))
+	}
+	flush()
+	return out
 }
 
 // ConcatParts flattens a string concatenation tree (BinOp ADD) into its leaves.
